@@ -1,5 +1,5 @@
 (* Entry point of the extracted model: one request (an s-expression) in, one out. *)
-Require Import BB.Base.Str BB.Base.Sx BB.Model.PreParse.
+Require Import BB.Base.Str BB.Base.Sx BB.Base.Xml BB.Model.PreParse BB.Model.Eid.
 Open Scope N_scope.
 
 Definition opt_str_sx (o : option str) : sx :=
@@ -11,6 +11,24 @@ Definition dispatch (req : sx) : sx :=
       if str_eqb stage (of_string "pre") then
         match args with
         | [A [size]; A text] => opt_str_sx (pre_parse (N.to_nat size) text)
+        | _ => sx_err "BadRequest"
+        end
+      else if str_eqb stage (of_string "eid") then
+        match args with
+        | [A prefix; x] =>
+            match xml_of_sx x with
+            | None => sx_err "BadXml"
+            | Some e =>
+                match rewrite_all_eids e prefix with
+                | None => sx_err "OutOfFuel"
+                | Some (e', m) => L [xml_to_sx e'; L (map (fun kv => L [A (fst kv); A (snd kv)]) m)]
+                end
+            end
+        | _ => sx_err "BadRequest"
+        end
+      else if str_eqb stage (of_string "clean_num") then
+        match args with
+        | [A n] => A (clean_num n)
         | _ => sx_err "BadRequest"
         end
       else sx_err "UnknownStage"
